@@ -8,7 +8,9 @@
 // contains(_if), generate_n, repeat), C16_algorithm2.cpp (find_*, index_of, equal_range, binary_search, remove(_if),
 // unique(_if), reverse, split_string/join_strings, map_iteration(_second), sequence_iteration), C16_container.cpp
 // (join, at_optional, find_opt*, get_or_insert*, key_set, map_values_*, set_*, index_map) and C16_array_tuple.cpp
-// (array::*, tuple::*, algorithm::map/loop/fold on arrays, tuples and mpl lists).
+// (array::*, tuple::*, algorithm::map/loop/fold on arrays, tuples and mpl lists); C16_hetero.cpp runs every function
+// that takes a value / key / index / delimiter / state next to a range with a value of another type (C16_hetero.hpp
+// holds the calls, C16_probe_hetero.cpp compiles each family on its own as a compile probe).
 #include "C16_common.hpp"
 
 int main(int argc, char **argv)
@@ -17,5 +19,6 @@ int main(int argc, char **argv)
   c16::register_algorithm2_shards();
   c16::register_container_shards();
   c16::register_array_tuple_shards();
+  c16::register_hetero_shards();
   return vrt::run(argc, argv);
 }
